@@ -39,11 +39,13 @@ ASSUMPTIONS = [
 ]
 HORIZON_S = 600
 HEAVY_CASES = True
-SEEDS = ["prod", "rand", "over", "rdef", "cplx", "mixed", "mpoN", "mpoR", "mpoNN", "mpdm"]
+SEEDS = ["prod", "rand", "over", "rdef", "cplx", "mixed", "mpoN", "mpoR", "mpoNN", "mpdm", "swept-sum", "swept-applied"]
+# the last two carry a HISTORY: a gauge sweep (flags: to_right=True, centre at site 0), then a sum / an operator application that keeps
+# those flags on tensors that are no longer right-canonical
 
 
 def COST(desc):
-    return desc["n"] ** 2 * (3 if desc["kind"] in ("over", "rdef", "mpoNN", "mpdm") else 1) * (6 if desc.get("mode") == "vc" else 1)
+    return desc["n"] ** 2 * (3 if desc["kind"] in ("over", "rdef", "mpoNN", "mpdm", "swept-sum", "swept-applied") else 1) * (6 if desc.get("mode") == "vc" else 1)
 
 
 def BOUND(tier):
@@ -65,6 +67,8 @@ def cases(tier, seed):
                     if kind == "mpoR" and fam == "spin":
                         continue
                     if quick and n == 4 and kind in ("mixed", "mpdm"):
+                        continue
+                    if kind in ("swept-sum", "swept-applied") and n < 2:
                         continue
                     yield {"fam": fam, "n": n, "sector": sec, "kind": kind, "mode": "bfs"}
                     if kind in ("prod", "rand", "over", "rdef", "cplx", "mixed") and n >= 2:
@@ -102,6 +106,16 @@ def make_seed(ch, sec, kind):
     if kind == "rdef":
         a = ch.random_mps(sec, m, "x")
         return a.add(ch.random_mps(sec, m, "x").scale(2.0)).add(ch.random_mps(sec, max(2, m - 2), "y"))
+    if kind == "swept-sum":
+        a = ch.random_mps(sec, m, "x", cplx=True)
+        b = ch.random_mps(sec, m, "y")
+        a.canonicalise()
+        b.canonicalise()
+        return a.add(b)
+    if kind == "swept-applied":
+        a = ch.random_mps(sec, m, "x")
+        a.canonicalise()
+        return ch.mpo_neutral().apply(a)
     if kind == "cplx":
         return ch.random_mps(sec, m, "x", cplx=True)
     if kind == "mixed":
@@ -322,7 +336,7 @@ def run_case(desc, seed):
             xx0 = st.regs["x"]
             if not ((xx0.to_right and xx0.qnidx == 0) or ((not xx0.to_right) and xx0.qnidx == xx0.site_num - 1)):
                 continue   # variational_compress refuses (assert) a centre that is not at the matching chain end
-            for vmethod, (gname, gm) in itertools.product((desc["vmethod"],), (("wide-guess", None), ("narrow-operator-guess", 1))):
+            for vmethod, (gname, gm) in itertools.product((desc["vmethod"],), (("wide-guess", None), ("narrow-operator-guess", 1), ("config-used-before", None))):
                 from renormalizer.utils import CompressConfig, CompressCriteria
                 s2 = st.clone()
                 xx = s2.regs["x"]
@@ -331,6 +345,20 @@ def run_case(desc, seed):
                 # guess is truncated to bond dimension 1 (lossy), the sweeps have to find O@x themselves
                 xx.compress_config = CompressConfig(CompressCriteria.fixed, max_bonddim=mmax, vmethod=vmethod,
                                                     vguess_m=(mmax * 4, mmax) if gm is None else (gm, mmax))
+                if gname == "config-used-before":
+                    # the configuration OBJECT has a history: it served a truncating compression with limit 1 before (which fills its
+                    # per-bond table), then the caller asks for a sufficient limit through the sweep schedule
+                    import copy as _copy
+                    cfg = CompressConfig(CompressCriteria.fixed, max_bonddim=1, vmethod=vmethod, vguess_m=(mmax * 4, mmax))
+                    tmp = _copy.deepcopy(xx)
+                    tmp.compress_config = cfg
+                    try:
+                        tmp.ensure_left_canonical()
+                        tmp.compress()
+                    except Exception:
+                        continue
+                    cfg.vprocedure = CompressConfig(CompressCriteria.fixed, max_bonddim=mmax, vmethod=vmethod).vprocedure
+                    xx.compress_config = cfg
                 ref = Od @ s2.sh["x"]
                 if np.linalg.norm(ref) < 1e-12:
                     continue
